@@ -308,10 +308,16 @@ func TestVerifC41(t *testing.T) {
 	}
 	scen = append(scen, []c41Op{c41Buffered, c41Produce0, c41FetchTail, c41FetchTail}, []c41Op{c41Buffered, c41Flush, c41FetchTail, c41FetchTail})
 	// sibling partition: requests on the warm partition against the first touch of the topic's other partition
-	for _, a := range []c41Op{c41FetchOld, c41FetchTail, c41Produce, c41ReadSmall, c41Flush} {
+	sib := []c41Op{c41FetchOld}
+	if vh.Thorough() {
+		sib = []c41Op{c41FetchOld, c41FetchTail, c41Produce, c41ReadSmall, c41Flush}
+	}
+	for _, a := range sib {
 		scen = append(scen, []c41Op{a, c41ProduceP1}, []c41Op{a, c41FetchP1})
 	}
-	scen = append(scen, []c41Op{c41ProduceP1, c41FetchP1}, []c41Op{c41FetchOld, c41FetchOld, c41ProduceP1})
+	if vh.Thorough() {
+		scen = append(scen, []c41Op{c41ProduceP1, c41FetchP1}, []c41Op{c41FetchOld, c41FetchOld, c41ProduceP1})
+	}
 	// tiny-cache world: a reader of handed-out cache bytes against inserts that evict (and may recycle)
 	scen = append(scen,
 		[]c41Op{c41Tiny, c41FetchOld, c41CacheSetB},
